@@ -171,6 +171,16 @@ class Bits:
         # exact when supports are disjoint: then + is |
         if all(x == 0 or y == 0 for x, y in zip(self.b, o.b)):
             return self | o
+        # x + (-2**k) where x < 2**(k+1) and bit k of x is a single literal L:
+        # L = 1 -> bit k cleared; L = 0 -> borrow ripples through the (zero) upper bits: all ones
+        for x, c in ((self, o), (o, self)):
+            if c.is_const():
+                v = c.value()
+                if v < 0 and (-v) & (-v - 1) == 0:
+                    k = (-v).bit_length() - 1
+                    if all(b == 0 for b in x.b[k + 1:]) and x.b[k] != TOP:
+                        nb = _not(x.b[k])
+                        return Bits(list(x.b[:k]) + [nb] * (N - k))
         return None
 
     def neg(self):
@@ -232,6 +242,19 @@ class Bits:
 
 def _wname(w):
     return "byte%d" % w if isinstance(w, int) else str(w)
+
+
+def bits_relation(got, exp):
+    """'equal' | 'different' (some bit is known on both sides and differs) | 'unknown' (only unknown bits stand in the way)"""
+    unknown = False
+    for g, e in zip(got.b, exp.b):
+        if g == e:
+            continue
+        if g == TOP or e == TOP:
+            unknown = True
+            continue
+        return "different"
+    return "unknown" if unknown else "equal"
 
 
 def src_byte(k):
